@@ -1,6 +1,6 @@
 #!/venv/bin/python
 """Run the quick (or thorough) check of the broken property against every confirmed seeded bug.
-Each bug is applied to a scratch worktree of /repo HEAD (outside /repo and /verif), the check runs with
+Each bug is applied to a scratch worktree of /repo HEAD (or, if a later fix commit touched the same lines, of the commit it was written against; outside /repo and /verif), the check runs with
 VERIF_REPO=<scratch>, the worktree is removed.  usage: run_seeded.py [--tier quick] [ids...]
 Output: one line per seeded bug: CAUGHT (exit 1 + VIOLATION line) / MISSED (exit 0) / ERROR (exit 2)."""
 import concurrent.futures as cf
@@ -26,6 +26,11 @@ def one(sid, tier):
     try:
         sh(f'git -C /repo worktree add --detach {wt} HEAD')
         rc, out = sh(f'git apply {d}/patch.diff', cwd=wt)
+        if rc and meta.get('base_commit'):
+            # a later fix: commit touched the same lines: fall back to the commit the change was written against
+            sh(f'git -C /repo worktree remove --force {wt}')
+            sh(f'git -C /repo worktree add --detach {wt} {meta["base_commit"]}')
+            rc, out = sh(f'git apply {d}/patch.diff', cwd=wt)
         if rc:
             return sid, 'ERROR', 'patch does not apply: ' + out[-200:]
         env = dict(os.environ, VERIF_REPO=wt, PYTHONHASHSEED='0', TZ='UTC')
